@@ -60,6 +60,7 @@ type reqRec struct {
 
 type state struct {
 	ModeFile vm.ModeFile `json:"modeFile"`
+	Intent   vm.ModeFile `json:"intent"` // what the last accepted SetMode had to record (K "none": none)
 	Day      int         `json:"day"`
 	Tod      int         `json:"tod"`
 	Files    []fileRec   `json:"files"`
@@ -382,9 +383,31 @@ func (e *env) proxyEnv(rate int) []string {
 type action struct {
 	Op string `json:"op"`
 	A  string `json:"a"`
+	P  string `json:"p"` // set: the padding around the word (see ModeFile.tla, Pads)
 	N1 int    `json:"n1"`
 	N2 int    `json:"n2"`
 	Ok bool   `json:"ok"`
+}
+
+var noIntent = vm.ModeFile{K: "none", D: vm.NoDate}
+
+// padded is the concrete SetMode argument for word w with padding class p.
+func padded(w, p string) string {
+	switch p {
+	case "lead":
+		return " " + w
+	case "trail":
+		return w + " "
+	case "tab":
+		return w + "\t"
+	case "nl":
+		return w + "\n"
+	case "crlf":
+		return w + "\r\n"
+	case "both":
+		return " " + w + "\n"
+	}
+	return w
 }
 
 type step struct {
@@ -498,6 +521,7 @@ func (e *env) runScenario(sc *scenario) {
 	}
 	day, tod := ini.Day, ini.Tod
 	nrun := 0
+	intent := noIntent // in the model's (unshifted) day numbers
 	var reqs []reqRec
 	seenReq := 0
 	observe := func() state {
@@ -542,9 +566,11 @@ func (e *env) runScenario(sc *scenario) {
 				rt.Out(rt.M{"kind": "infra", "id": sc.ID, "err": err.Error()})
 				return
 			}
+			intent = noIntent // written by hand
 			continue
 		}
 		pre := observe()
+		intentS := intent
 		_, _, _, _, extraS := project(dir, e.self)
 		snapS := vm.Snapshot(dir)
 		errText := ""
@@ -583,10 +609,14 @@ func (e *env) runScenario(sc *scenario) {
 				errText = collectInProcess(dir, a.A, vm.At(day, tod))
 			}
 		case "set":
-			err := telemetry.NewDir(dir).SetModeAsOf(a.A, vm.At(a.N1+sh, (sc.Variant*7919+i*131)%86400))
+			err := telemetry.NewDir(dir).SetModeAsOf(padded(a.A, a.P), vm.At(a.N1+sh, (sc.Variant*7919+i*131)%86400))
 			okGot = err == nil
 			if err != nil {
 				errText = err.Error()
+			}
+			if okGot && (a.A == "on" || a.A == "off" || a.A == "local") {
+				// the call was accepted: this is what it had to record
+				intent = vm.ModeFile{K: "text", W: a.A, D: a.N1}
 			}
 		}
 		post := observe()
@@ -596,8 +626,10 @@ func (e *env) runScenario(sc *scenario) {
 		act := a
 		act.Ok = okGot
 		act.A = vm.SafeWord(a.A)
+		us, ut := unshift(pre), unshift(post)
+		us.Intent, ut.Intent = intentS, intent
 		rec := rt.M{"kind": "obs", "src": sc.Src, "id": sc.ID, "step": i, "w": sc.W, "run": nrun, "shift": sc.Shift,
-			"a": act, "s": unshift(pre), "t": unshift(post),
+			"a": act, "s": us, "t": ut,
 			"same": rt.M{"data": same, "mode": sameMode(snapS, snapT)}, "what": what,
 			"read": unshiftRead(vm.LibRead(dir), sc.Shift), "extra_s": extraS, "extra_t": extraT, "err": errText,
 			"mode_bytes": modeText(dir)}
@@ -772,10 +804,22 @@ func randomScenarios(n int, idBase int) []scenario {
 		}
 		switch rng.Intn(10) {
 		case 0:
-			m := []string{"on", "off", "local", "", "On", "auto", "on off", "local\x00", "o n", "ON", "off\n2024-01-01", "onn", "-", "1"}[rng.Intn(14)]
-			sc.Steps = []step{{Act: action{Op: "set", A: m, N1: base + rng.Intn(60) - 20, Ok: m == "on" || m == "off" || m == "local"}}}
-			if mf.K == "unreadable" && sc.Steps[0].Act.Ok {
+			m := []string{"on", "off", "local", "on", "off", "local", "", "On", "auto", "on off", "local\x00", "o n", "ON", "off\n2024-01-01", "onn", "-", "1"}[rng.Intn(17)]
+			valid := m == "on" || m == "off" || m == "local"
+			pad := ""
+			if rng.Intn(2) == 0 && (valid || m == "auto" || m == "On") {
+				pad = []string{"lead", "trail", "tab", "nl", "crlf", "both"}[rng.Intn(6)]
+			}
+			asof := base + rng.Intn(60) - 20
+			sc.Steps = []step{{Act: action{Op: "set", A: m, P: pad, N1: asof, Ok: valid}}}
+			if mf.K == "unreadable" && valid {
 				sc.Steps = nil
+			} else if valid {
+				// what follows is judged by what was set
+				sc.Steps = append(sc.Steps, step{Act: action{Op: "collect", A: "c1", Ok: true}},
+					step{Act: action{Op: "run", N1: x, N2: rate, Ok: true}},
+					step{Act: action{Op: "advance"}, Day: st.Day + 8 + rng.Intn(14), Tod: rng.Intn(86400)},
+					step{Act: action{Op: "run", N1: rng.Intn(1024), N2: rate, Ok: true}})
 			}
 		case 1:
 			sc.Child = rng.Intn(3) == 0
